@@ -17,7 +17,7 @@ SIG = bytes([137, 80, 78, 71, 13, 10, 26, 10])
 
 
 def caps(tier):
-    return dict(rest=28) if tier == "quick" else dict(rest=34)
+    return dict(rest=40) if tier == "quick" else dict(rest=52)
 
 
 _u = [0]
@@ -53,7 +53,7 @@ def make_queries(tier):
             data = VStr(bstr.concat(bstr.lit(SIG), rest.e))
             flen = data.e.n
             if E.mode == "symbolic":
-                E.I.loop_bound = 4
+                E.I.loop_bound = C["rest"] // 12 + 1
             st = ms.stream(data, 0)
             r = E.call("<PngIO as AssetBoxHash>::get_box_map", VStruct("PngIO", {}), st)
             good = is_ok(r)
@@ -71,12 +71,12 @@ def make_queries(tier):
                 pos = bv(8)
                 ends_at_iend = z3.BoolVal(False)
                 open_ = z3.BoolVal(True)
-                for _ in range(3):
+                for _ in range(C["rest"] // 12):
                     hdr_ok = z3.And(z3.BVAddNoOverflow(pos, bv(12), False), ule(pos + bv(12), flen))
-                    ln = z3.ZeroExt(32, z3.Concat(*bstr.substr(d, pos, bv(4)).b[:4]))
+                    ln = z3.ZeroExt(32, z3.Concat(*(bstr.substr(d, pos, bv(4)).b + [b8(0)] * 4)[:4]))
                     name = bstr.substr(d, pos + bv(4), bv(4))
                     end = pos + bv(12) + ln
-                    is_end = bstr.eq(BStr(name.b[:4], bv(4)), bstr.lit("IEND"))
+                    is_end = bstr.eq(BStr((name.b + [b8(0)] * 4)[:4], bv(4)), bstr.lit("IEND"))
                     ends_at_iend = z3.Or(ends_at_iend, z3.And(open_, hdr_ok, is_end, end == flen))
                     open_ = z3.And(open_, hdr_ok, z3.Not(is_end), ule(end, flen))
                     pos = end
